@@ -389,3 +389,21 @@ func (s *replayStream) Read(p []byte) (int, error) {
 	s.pos += c
 	return c, nil
 }
+
+var jsonSamples = map[string]string{"string": `"x"`, "number": `7`, "bool": `true`, "object": `{}`, "array": `[]`, "null": `null`}
+
+func JSONArgs(isArray bool, kinds ...string) []byte {
+	if !isArray {
+		return []byte(`{"a":1}`)
+	}
+	parts := []string{}
+	for _, k := range kinds {
+		parts = append(parts, jsonSamples[k])
+	}
+	return []byte("[" + strings.Join(parts, ",") + "]")
+}
+
+var reflectCalls int
+
+// ReflectCalls cannot be observed natively; harnesses that need it count in their receivers.
+func ReflectCalls() int { return reflectCalls }
